@@ -37,7 +37,7 @@ TRUSTED = [
 ]
 
 ENV = dict(os.environ, TSAN_OPTIONS="halt_on_error=0 exitcode=0 report_thread_leaks=0 history_size=4 second_deadlock_stack=1")
-RUN_TIMEOUT = 25.0
+RUN_TIMEOUT = 12.0
 
 
 # ---------------------------------------------------------------------------------------------
@@ -146,7 +146,7 @@ def run_one(exe, c, timeout=RUN_TIMEOUT):
         so, se = p.communicate(timeout=timeout)
     except subprocess.TimeoutExpired:
         a = _cpu_ticks(p.pid)
-        time.sleep(2.0)
+        time.sleep(1.0)
         b = _cpu_ticks(p.pid)
         if a is not None and b is not None and b - a <= 1 and p.poll() is None:
             hang = "deadlock"
@@ -197,19 +197,20 @@ def parse_out(text):
 
 
 def tsan_reports(err):
-    """-> list of (kind, site) for every ThreadSanitizer report on stderr"""
+    """-> list of (kind, site) for every ThreadSanitizer report on stderr; site = source file of the innermost library frame"""
+    import re
     reps = []
     blocks = err.split("WARNING: ThreadSanitizer: ")[1:]
     for b in blocks:
         kind = b.split("(")[0].strip().split("\n")[0].strip()
-        site = "?"
+        site = "unknown"
         for line in b.split("\n"):
             line = line.strip()
-            if line.startswith("#") and ("/Addons/" in line or "/SparseGrids/" in line or "pardrv" in line):
-                # "#1 TasGrid::f(...) /path/file.hpp:123 (exe+0x...)"
-                toks = line.split()
-                fl = [x for x in toks if ".hpp:" in x or ".cpp:" in x]
-                site = os.path.basename(fl[0]).split(":")[0] + ":" + fl[0].split(":")[1] if fl else toks[1]
+            if not line.startswith("#"):
+                continue
+            m = re.search(r"/(?:Addons|SparseGrids|DREAM)/([A-Za-z0-9_]+\.(?:hpp|cpp)):\d+", line)
+            if m:
+                site = m.group(1)
                 break
         reps.append((kind, site))
     return reps
@@ -374,7 +375,7 @@ def run(res, tier, seed, replay_cfg=None, reps=1):
 
     wd = os.path.join(vlib.BUILD, "work", PID)
     os.makedirs(wd, exist_ok=True)
-    stats, dist = {}, {}
+    stats, dist, nkey = {}, {}, {}
     shapes, nontriv = set(), set()
     traces, trace_of = [], {}
     hooks_present = None
@@ -407,7 +408,9 @@ def run(res, tier, seed, replay_cfg=None, reps=1):
             if hooks_present is None:
                 hooks_present = o["hooks"]
             for key, what in blackbox(c, o, stats):
-                res.violation(key, "%s: %s" % (name, what), rep)
+                nkey[key] = nkey.get(key, 0) + 1
+                if nkey[key] <= 3:      # a few replay files per key are enough
+                    res.violation(key, "%s: %s" % (name, what), rep)
             sh = trace_shape(o)
             shapes.add((cfg_key(c), sh))
             started = len(set(cl["thread"] for cl in o["calls"]))
@@ -442,7 +445,8 @@ def run(res, tier, seed, replay_cfg=None, reps=1):
                 if "guarded" in kv:
                     tv["guarded_" + kv["guarded"]] += 1
                     c, var = trace_of[t[1]]
-                    if kv["guarded"] == "no":
+                    if kv["guarded"] == "no" and nkey.get("budget-initial-launch", 0) < 3:
+                        nkey["budget-initial-launch"] = nkey.get("budget-initial-launch", 0) + 1
                         res.violation("budget-initial-launch", "%s: the logged launch loop is accepted only by the model of the unguarded loop "
                                       "(it hands out samples after the budget is exhausted)" % t[1],
                                       {"kind": "impl-counterexample", "config": c, "variant": var, "cmd": "pardrv " + cfg_key(c)})
@@ -485,7 +489,7 @@ def run(res, tier, seed, replay_cfg=None, reps=1):
         "programs": len(cfgs), "distinct_schedules": len(shapes),
         "traces_validated_against_impl": tv["validated"], "disagreements_checked": tv["mismatches"],
         "trace_validation": tv, "tsan_runs": sum(1 for _c, v, _e in jobs if v == "tsan"), "tsan_reports": n_tsan_reports, "hangs": hangs,
-        "blackbox": stats, "input_distribution": dist, "run_wall_s": round(run_wall, 1),
+        "blackbox": stats, "violations_by_key": nkey, "input_distribution": dist, "run_wall_s": round(run_wall, 1),
     })
     res.assumptions = [
         "theorems are about the sequentially consistent interleaving model of the mutex-protected steps; data-race freedom of the real "
